@@ -134,6 +134,10 @@ func runC14(e *Env) {
 	// ---- R5 expiry predicate
 	if e.want("C14.R5") {
 		checkExpiryPredicate(e)
+		singleExpirySnapshot(e, "C14.R5")
+	}
+	if e.want("C14.R3") {
+		delegatedCallbackUnderLock(e, "C14.R3")
 	}
 }
 
